@@ -37,7 +37,7 @@ PROPS["C10"] = dict(
         dict(harness="fs_safety", mode="ops", quick=dict(cases=20000, size=100, shards=8),
              thorough=dict(cases=150000, size=100, shards=16)),
         dict(harness="fuzz_fs", mode="raw", kind="fuzz", quick=dict(cases=150000, shards=4, max_len=512),
-             thorough=dict(cases=3000000, shards=8, max_len=512)),
+             thorough=dict(cases=1200000, shards=8, max_len=512)),
     ],
     rule="exhaustive part: capacities 1..2 (thorough: 1..3) x every content over {a,b} x every single operation kind x every variant x "
          "every source object x source texts over {a,b} of length 0..2 x the argument grid {0..max(length,source length,L)+2, npos-1, "
@@ -115,11 +115,14 @@ MANIFEST_TEXT["C10"] = dict(
     text="Stateful generated operation sequences over all public FixedString operations with boundary-biased and far out-of-domain "
          "positions, counts and source sizes (incl. npos and values that make pos+count wrap around), on capacities from 1 to 65536 "
          "incl. both length-type boundaries; the object lives in an exact-size heap block or between canaries, sources in exact-size "
-         "heap blocks; the well-formedness invariants are checked after every operation and ASan/UBSan monitor every access. " + EXPL,
+         "heap blocks; the well-formedness invariants are checked after every operation and ASan/UBSan monitor every access. All single "
+         "operations on all contents over {a,b} for capacities 1..2 (thorough 1..3) with an argument grid that includes npos-1/npos are "
+         "enumerated exhaustively, and a libFuzzer target explores the same operation stream coverage-guided for L=8/255/256. " + EXPL,
     design_ref="DESIGN.md section 4, C10",
     note="Trusts ASan/UBSan as monitors and the harness' bookkeeping of 'a NUL was stored'; writes that stay inside the object (length "
          "member) are seen only through the invariants.",
-    technique="stateful property-based testing (rapidcheck) with out-of-domain arguments under ASan/UBSan + canary/invariant oracle")
+    technique="stateful property-based testing (rapidcheck) with out-of-domain arguments + bounded exhaustive enumeration + coverage-guided "
+              "fuzzing (libFuzzer), under ASan/UBSan with canary/invariant oracle")
 MANIFEST_TEXT["C11"] = dict(
     text="Model-based differential testing against std::string cut off at the capacity: all single operations on all contents over "
          "{a,b} up to capacity 4 with all small in-domain argument tuples are enumerated exhaustively; longer histories, printable "
